@@ -1,9 +1,9 @@
 #!/usr/bin/env python3
 """Regenerates /verif/MANIFEST.json from checks.json (+ properties.jsonl for the
 not_applicable list). Run after every change of checks.json."""
-import json, os
+import json, os, glob
 HOME = os.path.dirname(os.path.dirname(os.path.abspath(__file__)))
-cfg = json.load(open(os.path.join(HOME, "checks.json")))
+cfg = {os.path.basename(f)[:-5]: json.load(open(f)) for f in glob.glob(os.path.join(HOME, "checks.d", "C*.json"))}
 props = [json.loads(l) for l in open(os.path.join(HOME, "properties.jsonl"))]
 na_reasons = {}
 p = os.path.join(HOME, "not_applicable.json")
